@@ -131,6 +131,8 @@ where
         Arc<K>: Borrow<Q>,
         Q: Hash + Eq + ?Sized,
     {
+        #[cfg(mini_moka_verif)]
+        crate::verif::sp("con.begin");
         match self.inner.get(key) {
             None => false,
             Some(entry) => {
@@ -154,7 +156,11 @@ where
             self.record_read_op(op, now)
                 .expect("Failed to record a get op");
         };
+        #[cfg(mini_moka_verif)]
+        crate::verif::sp("get.begin");
         let now = self.inner.current_time_from_expiration_clock();
+        #[cfg(mini_moka_verif)]
+        crate::verif::sp("get.timed");
 
         match self.inner.get(key) {
             None => {
@@ -208,13 +214,19 @@ where
 
         if let Some(hk) = housekeeper {
             if hk.should_apply_writes(w_len, now) {
+                #[cfg(mini_moka_verif)]
+                crate::verif::sp("hk.decided");
                 hk.try_sync(inner);
             }
         }
     }
 
     pub(crate) fn invalidate_all(&self) {
+        #[cfg(mini_moka_verif)]
+        crate::verif::sp("ia.begin");
         let now = self.inner.current_time_from_expiration_clock();
+        #[cfg(mini_moka_verif)]
+        crate::verif::sp("ia.timed");
         self.inner.set_valid_after(now);
     }
 }
@@ -255,7 +267,11 @@ where
         op: ReadOp<K, V>,
         now: Instant,
     ) -> Result<(), TrySendError<ReadOp<K, V>>> {
+        #[cfg(mini_moka_verif)]
+        crate::verif::sp("get.record");
         self.apply_reads_if_needed(self.inner.as_ref(), now);
+        #[cfg(mini_moka_verif)]
+        crate::verif::sp("rd.send");
         let ch = &self.read_op_ch;
         match ch.try_send(op) {
             // Discard the ReadOp when the channel is full.
@@ -276,6 +292,8 @@ where
         let mut insert_op = None;
         let mut update_op = None;
 
+        #[cfg(mini_moka_verif)]
+        crate::verif::block_until("ins.shard", &|| self.inner.verif_shard_free(&*key));
         self.inner
             .cache
             .entry(Arc::clone(&key))
@@ -350,6 +368,8 @@ where
 
         if let Some(hk) = &self.housekeeper {
             if hk.should_apply_reads(len, now) {
+                #[cfg(mini_moka_verif)]
+                crate::verif::sp("hk.decided");
                 if let Some(h) = &self.housekeeper {
                     h.try_sync(inner);
                 }
@@ -557,6 +577,22 @@ where
     }
 }
 
+// Verification hook: true when a write operation on `key`'s shard would not block.
+#[cfg(mini_moka_verif)]
+impl<K, V, S> Inner<K, V, S>
+where
+    K: Hash + Eq,
+    S: BuildHasher + Clone,
+{
+    pub(crate) fn verif_shard_free<Q>(&self, key: &Q) -> bool
+    where
+        Arc<K>: Borrow<Q>,
+        Q: Hash + Eq + ?Sized,
+    {
+        !self.cache.try_get_mut(key).is_locked()
+    }
+}
+
 // functions/methods used by BaseCache
 impl<K, V, S> Inner<K, V, S> {
     fn policy(&self) -> Policy {
@@ -658,6 +694,8 @@ where
     S: BuildHasher + Clone + Send + Sync + 'static,
 {
     fn sync(&self, max_repeats: usize) {
+        #[cfg(mini_moka_verif)]
+        crate::verif::block_until("sync.lock", &|| self.deques.try_lock().is_ok());
         let mut deqs = self.deques.lock().expect("lock poisoned");
         let mut calls = 0;
         let mut should_sync = true;
@@ -667,6 +705,8 @@ where
         let mut counters = EvictionCounters::new(current_ec, current_ws);
 
         while should_sync && calls <= max_repeats {
+            #[cfg(mini_moka_verif)]
+            crate::verif::sp("sync.round");
             let r_len = self.read_op_ch.len();
             if r_len > 0 {
                 self.apply_reads(&mut deqs, r_len);
@@ -686,10 +726,14 @@ where
                 || self.write_op_ch.len() >= WRITE_LOG_FLUSH_POINT;
         }
 
+        #[cfg(mini_moka_verif)]
+        crate::verif::sp("sync.expire");
         if self.has_expiry() || self.has_valid_after() {
             self.evict_expired(&mut deqs, batch_size::EVICTION_BATCH_SIZE, &mut counters);
         }
 
+        #[cfg(mini_moka_verif)]
+        crate::verif::sp("sync.evict");
         // Evict if this cache has more entries than its capacity.
         let weights_to_evict = self.weights_to_evict(&counters);
         if weights_to_evict > 0 {
@@ -701,6 +745,8 @@ where
             );
         }
 
+        #[cfg(mini_moka_verif)]
+        crate::verif::sp("sync.publish");
         debug_assert_eq!(self.entry_count.load(), current_ec);
         debug_assert_eq!(self.weighted_size.load(), current_ws);
         self.entry_count.store(counters.entry_count);
@@ -779,6 +825,8 @@ where
         let mut freq = self.frequency_sketch.write().expect("lock poisoned");
         let ch = &self.read_op_ch;
         for _ in 0..count {
+            #[cfg(mini_moka_verif)]
+            crate::verif::sp("rd.apply");
             match ch.try_recv() {
                 Ok(Hit(hash, entry, timestamp)) => {
                     freq.increment(hash);
@@ -799,6 +847,8 @@ where
         let ch = &self.write_op_ch;
 
         for _ in 0..count {
+            #[cfg(mini_moka_verif)]
+            crate::verif::sp("wr.apply");
             match ch.try_recv() {
                 Ok(Upsert {
                     key_hash: kh,
@@ -825,6 +875,8 @@ where
         freq: &FrequencySketch,
         counters: &mut EvictionCounters,
     ) {
+        #[cfg(mini_moka_verif)]
+        crate::verif::sp("up.begin");
         entry.set_dirty(false);
 
         if entry.is_admitted() {
@@ -846,6 +898,8 @@ where
         if let Some(max) = self.max_capacity {
             if new_weight as u64 > max {
                 // The candidate is too big to fit in the cache. Reject it.
+                #[cfg(mini_moka_verif)]
+                crate::verif::block_until("up.reject", &|| self.verif_shard_free(&*kh.key));
                 self.cache.remove(&Arc::clone(&kh.key));
                 return;
             }
@@ -855,6 +909,8 @@ where
         let mut candidate = EntrySizeAndFrequency::new(new_weight);
         candidate.add_frequency(freq, kh.hash);
 
+        #[cfg(mini_moka_verif)]
+        crate::verif::sp("up.admit");
         // Try to admit the candidate.
         match Self::admit(&candidate, &self.cache, deqs, freq) {
             AdmissionResult::Admitted {
@@ -863,6 +919,10 @@ where
             } => {
                 // Try to remove the victims from the cache (hash map).
                 for victim in victim_nodes {
+                    #[cfg(mini_moka_verif)]
+                    crate::verif::block_until("up.victim", &|| {
+                        self.verif_shard_free(&**unsafe { victim.as_ref().element.key() })
+                    });
                     if let Some((_vic_key, vic_entry)) =
                         self.cache.remove(unsafe { victim.as_ref().element.key() })
                     {
@@ -883,6 +943,8 @@ where
             AdmissionResult::Rejected { skipped_nodes: s } => {
                 skipped_nodes = s;
                 // Remove the candidate from the cache (hash map).
+                #[cfg(mini_moka_verif)]
+                crate::verif::block_until("up.reject", &|| self.verif_shard_free(&*kh.key));
                 self.cache.remove(&Arc::clone(&kh.key));
             }
         };
@@ -1085,6 +1147,8 @@ where
             }
 
             let key = key.as_ref().unwrap();
+            #[cfg(mini_moka_verif)]
+            crate::verif::block_until("exp_ao.peeked", &|| self.verif_shard_free(&**key));
 
             // Remove the key from the map only when the entry is really
             // expired. This check is needed because it is possible that the entry in
@@ -1155,6 +1219,8 @@ where
             }
 
             let key = key.as_ref().unwrap();
+            #[cfg(mini_moka_verif)]
+            crate::verif::block_until("exp_wo.peeked", &|| self.verif_shard_free(&**key));
 
             let maybe_entry = self
                 .cache
@@ -1220,6 +1286,8 @@ where
                 None => break,
             };
 
+            #[cfg(mini_moka_verif)]
+            crate::verif::block_until("evict.peeked", &|| self.verif_shard_free(&*key));
             let maybe_entry = self.cache.remove_if(&key, |_, v| {
                 if let Some(lm) = v.last_modified() {
                     lm == ts
